@@ -686,6 +686,12 @@ system_connect(struct system *sys, struct bay *bay, struct recorder *rec)
 
 	struct pcf_type *affinity_type = thread_get_affinity_pcf_type(pcf_th);
 
+	struct pcf *pcf_cpu = pvt_get_pcf(pvt_cpu);
+	if (cpu_create_pcf_types(pcf_cpu) != 0) {
+		err("cpu_create_pcf_types failed");
+		return -1;
+	}
+
 	for (struct cpu *cpu = sys->cpus; cpu; cpu = cpu->next) {
 		if (cpu_connect(cpu, bay, rec) != 0) {
 			err("cpu_connect failed");
